@@ -15,6 +15,9 @@ for i in range(1, 21):
     samples = cov.get("samples") or []
     own = sum(1 for r in samples if not str(r.get("obligation", "")).startswith("dep:")) if samples and len(samples) == n else None
     cell = "%s%s / %d s (%s)" % (n, (" (%d own)" % own) if own is not None else "", round(ev.get("wall_s", 0)), ev.get("tier"))
-    s, k = re.subn(r"(\| %s \| [^|]* \| )[^|]*( \|)" % pid, lambda m: m.group(1) + cell + m.group(2), s, count=1)
+    a = s.index("### 0.2 ")
+    b = s.index("### 0.3 ")
+    sec, k = re.subn(r"(?m)^(\| %s \| .* \| )[^|\n]*( \| [^|\n]* \|)$" % pid, lambda m: m.group(1) + cell + m.group(2), s[a:b], count=1)
+    s = s[:a] + sec + s[b:]
     print(pid, cell, "updated" if k else "ROW NOT FOUND")
 open(p, "w").write(s)
